@@ -196,6 +196,7 @@ func run(in *bufio.Scanner, w *bufio.Writer) {
 		case "r":
 			e.f = faults{win: true, can: true, ms: true, mp: b(f[1]), cs: true, cw: true, cp: true, ts: true, tw: true, tp: true}
 			common.Guard(w, "reset", func() { p.Reset(cam) })
+			fmt.Fprintf(w, "< det restarted=%v\n", p.VerifDetectorRestarted())
 		case "t":
 			p.StartSnapshot = true
 		}
